@@ -59,7 +59,10 @@ fn apply(real: &mut ControlPoints, model: &mut CP, op: Op) {
                 0 => (SampleBank::Normal, 100, 0),
                 1 => (SampleBank::Soft, 50, 2),
                 2 => (SampleBank::Normal, 100, 1),
-                _ => (SampleBank::Drum, 100, 0),
+                3 => (SampleBank::Drum, 100, 0),
+                // silent points: a volume of 0 is a value like any other
+                4 => (SampleBank::Normal, 0, 0),
+                _ => (SampleBank::Soft, 0, 2),
             };
             real.add(SamplePoint::new(t, bank, vol, custom));
             model.add_s(S { time: t, bank: timing::bank_u8(bank), vol, custom });
@@ -223,7 +226,7 @@ pub fn run(ctx: &mut Ctx) {
         let len = 10 + r.below(191);
         let pool: Vec<f64> = (0..2 + r.below(12)).map(|_| random_time(&mut r)).collect();
         let h: Vec<Op> = (0..len)
-            .map(|_| Op { kind: r.below(4) as u8, time: if r.chance(3, 4) { *r.pick(&pool) } else { random_time(&mut r) }, val: r.below(4) as u8 })
+            .map(|_| Op { kind: r.below(4) as u8, time: if r.chance(3, 4) { *r.pick(&pool) } else { random_time(&mut r) }, val: r.below(6) as u8 })
             .collect();
         run_history(ctx, 1 << 60 | i, &h);
         if ctx.out_of_time() {
